@@ -138,8 +138,24 @@ int64_t cmb_resourceguard_wait(struct cmb_resourceguard *rgp,
                                cmb_resourceguard_demand_func *demand,
                                const void *ctx)
 {
+    return cmi_resourceguard_wait_since(rgp, demand, ctx, cmb_time());
+}
+
+/*
+ * cmi_resourceguard_wait_since - The same, for a process that has been waiting
+ * since the given time: one that was served in part, or that found its grant
+ * taken by someone else in the same instant, and comes back for more inside
+ * the same call. It keeps its place among the waiters of its priority instead
+ * of going to the back of the line as if it had just arrived.
+ */
+int64_t cmi_resourceguard_wait_since(struct cmb_resourceguard *rgp,
+                                     cmb_resourceguard_demand_func *demand,
+                                     const void *ctx,
+                                     const double since)
+{
     cmb_assert_release(rgp != NULL);
     cmb_assert_release(demand != NULL);
+    cmb_assert_release(since <= cmb_time());
 
     /* cmb_process_current returns NULL if called from the main process */
     struct cmb_process *pp = cmb_process_current();
@@ -148,7 +164,7 @@ int64_t cmb_resourceguard_wait(struct cmb_resourceguard *rgp,
     /* The arrival number at this guard breaks ties among equal priority and time */
     struct cmi_hashheap *hp = (struct cmi_hashheap *)rgp;
     const uintptr_t arrival = (uintptr_t)(hp->item_counter + 1u);
-    const double entry_time = cmb_time();
+    const double entry_time = since;
     const int64_t priority = cmb_process_priority(pp);
     const uint64_t key = cmi_hashheap_enqueue(hp,
                                               (void *)pp,
